@@ -21,7 +21,9 @@ from mcx.core import Check
 SPECIES = {
     'S1': [('A', ['A1', 'A2'])],
     'S2': [('B', ['B1']), ('C', ['C1', 'C2'])],
-    'S3': [('D', ['D1']), ('D', ['D1']), ('E', ['E1'])],     # repeated residue inside a species
+    # a residue kind repeated inside a species, which also BEGINS and ENDS with the same kind (two S3 in a row put
+    # two D residues of different molecules side by side; adjacent equal residues inside one molecule: S5)
+    'S3': [('D', ['D1']), ('E', ['E1']), ('D', ['D1'])],
     'S4': [('F', ['F1', 'F2', 'F3'])],
     'S5': [('M', ['M1']), ('M', ['M1'])],                    # homodimer: its residue pattern overlaps itself
     'W': [('W', ['OW'])],                                     # solvent, never loaded
@@ -90,6 +92,8 @@ def build_file(seq, num, seed):
             for an in anames:
                 p = (0.011 * (aid + 1) + 0.1 * seed, 1.0 + 0.007 * (aid + 1),
                      2.0 + 0.013 * ((aid * aid + seed) % 17))
+                if aid % 3 == 0:          # a coordinate that fills its column (no blank before it): -1xx.xxx in %8.3f
+                    p = (p[0], -100.0 - p[1], p[2])
                 recs.append((rid, rn, an, (astart + aid) % 100000, p))
                 names.append(an)
                 ids.append((astart + aid) % 100000)
